@@ -290,6 +290,21 @@ def run_sub(rec, sh, tier, seed):
             rec.violation("substitution_effect:input_modified", case)
             X = Xc.clone()
         rec.observe(rows, ga.sum())
+    # positions counted from the end: either the edit Python indexing denotes (position L+p) or a loud refusal - never another edit
+    for p_neg in (-1, -2, -L):
+        for b_ in range(B):
+            rows = [(b_, p_neg, (int(codes[b_, L + p_neg]) + 1) % A)]
+            st, val, _ = _capture(substitution_effect, X, torch.tensor(rows), None, False, B)
+            rec.case(1, 1)
+            if st != "ok":
+                rec.count("refused_negative_position")
+                continue
+            exp = codes.copy()
+            exp[b_, L + p_neg] = rows[0][2]
+            ga, oka = decode(val[1])
+            if not oka or not numpy.array_equal(ga, exp):
+                rec.violation("substitution_effect:negative_position_edits_elsewhere", dict(fn="substitution_effect", substitutions=rows, L=L, B=B),
+                              expected=exp[b_], observed=ga[b_] if oka else "<not one-hot>")
     for bad in ([(0, L, 0)], [(B, 0, 0)], [(0, 0, A)]):
         st, val, _ = _capture(substitution_effect, X, torch.tensor(bad), None, False, B)
         rec.case(1, 1)
@@ -312,8 +327,8 @@ def run_long(rec, tier, seed):
     for si, ps in enumerate(sets):
         per = {b: tuple(sorted(set(pos[(si + b + j) % len(pos)] for j in range((si + b) % 4)))) for b in range(B)}
         per[0] = ps
-        # deletions
-        for left in (False, True):
+        # deletions (the trim side also as numpy.bool_ - e.g. an element of `strands == '-'` - and as 0 / 1)
+        for left in (False, True, numpy.bool_(True), numpy.bool_(False), 1, 0)[si % 2::2] + (False, True):
             rows = [(b, p) for b in range(B) for p in per[b]]
             m = max(len(v) for v in per.values())
             exp_a, exp_b = [], []
@@ -324,7 +339,7 @@ def run_long(rec, tier, seed):
                 exp_b.append(list(codes[b][m:]) if left else list(codes[b][:L - m]))
             st, val, ok_args = _capture(deletion_effect, X, torch.tensor(rows, dtype=torch.int64).reshape(-1, 2), left, True, B)
             rec.case(1, 1)
-            case = dict(fn="deletion_effect", L=L, B=B, deletions=rows, left=left, seqs="rs(17+seed)")
+            case = dict(fn="deletion_effect", L=L, B=B, deletions=rows, left=repr(left), seqs="rs(17+seed)")
             if st != "ok":
                 rec.violation("deletion_effect:raises:long", case, observed=val)
                 continue
@@ -334,7 +349,7 @@ def run_long(rec, tier, seed):
                 rec.violation("deletion_effect:after_wrong:long", case)
         # insertions (distinct coordinates per example)
         rows = [(b, p, (p + b) % A) for b in range(B) for p in per[b]]
-        for left in (False, True):
+        for left in (False, True, numpy.bool_(True), numpy.bool_(False), 1, 0)[si % 2::2] + (False, True):
             exp = []
             for b in range(B):
                 s_ = list(codes[b])
@@ -343,7 +358,7 @@ def run_long(rec, tier, seed):
                 exp.append(s_[-L:] if left else s_[:L])
             st, val, ok_args = _capture(insertion_effect, X, torch.tensor(rows, dtype=torch.int64).reshape(-1, 3), left, False, B)
             rec.case(1, 1)
-            case = dict(fn="insertion_effect", L=L, B=B, insertions=rows, left=left, seqs="rs(17+seed)")
+            case = dict(fn="insertion_effect", L=L, B=B, insertions=rows, left=repr(left), seqs="rs(17+seed)")
             if st != "ok":
                 rec.violation("insertion_effect:raises:long", case, observed=val)
                 continue
@@ -358,6 +373,19 @@ def run_long(rec, tier, seed):
         rec.case(1, 1)
         if st != "ok" or not numpy.array_equal(decode(val[1])[0], exp) or not numpy.array_equal(decode(val[0])[0], codes) or not ok_args:
             rec.violation("substitution_effect:after_wrong:long", dict(fn="substitution_effect", L=L, B=B, substitutions=rows), observed=val if st != "ok" else None)
+        # positions counted from the end (L differs from the alphabet size here): Python-semantics edit or loud refusal
+        rows_n = [(b, -1 - ((si + b) % 7), int(codes[b, L - 1 - ((si + b) % 7)] + 1) % A) for b in range(B)]
+        st, val, _ = _capture(substitution_effect, X, torch.tensor(rows_n, dtype=torch.int64), None, False, B)
+        rec.case(1, 1)
+        if st != "ok":
+            rec.count("refused_negative_position")
+        else:
+            exp = codes.copy()
+            for (b, p, c) in rows_n:
+                exp[b, L + p] = c
+            ga, oka = decode(val[1])
+            if not oka or not numpy.array_equal(ga, exp):
+                rec.violation("substitution_effect:negative_position_edits_elsewhere:long", dict(fn="substitution_effect", L=L, B=B, substitutions=rows_n))
         if not torch.equal(X, Xc):
             rec.violation("variant_effect:input_modified:long", dict(fn="long", step=si))
             X = Xc.clone()
